@@ -169,6 +169,8 @@ class Abs:
             v = self.ev(e.operand)
             if isinstance(e.op, ast.Not):
                 return not self.truth(v)
+            if isinstance(e.op, ast.Invert) and getattr(v, "_abs_native", False):
+                return ~v
             if isinstance(e.op, ast.USub) and (isinstance(v, (int, float)) or getattr(v, "_abs_native", False) or type(v).__name__ == "Rat"):
                 return -v
             raise Undecided("unary op on %r" % (v,))
@@ -191,7 +193,7 @@ class Abs:
             for op, c in zip(e.ops, e.comparators):
                 right = self.ev(c)
                 r = self.compare(op, left, right)
-                if isinstance(r, list) and len(e.ops) == 1:
+                if (isinstance(r, list) or getattr(r, "_abs_native", False)) and len(e.ops) == 1:
                     return r          # element-wise comparison of an abstract array
                 if not r:
                     return False
@@ -283,6 +285,12 @@ class Abs:
             raise Undecided("membership in %r" % (b,))
         if isinstance(op, ast.NotIn):
             return not self.compare(ast.In(), a, b)
+        if getattr(a, "_abs_native", False) or getattr(b, "_abs_native", False):
+            import operator as _op
+            table = {ast.Eq: _op.eq, ast.NotEq: _op.ne, ast.Lt: _op.lt, ast.LtE: _op.le, ast.Gt: _op.gt, ast.GtE: _op.ge}
+            fn = table.get(type(op))
+            if fn is not None and (hasattr(type(a), "_bin") and type(a).__name__ == "NumArr" or type(b).__name__ == "NumArr"):
+                return fn(a, b)
         if isinstance(op, (ast.Eq, ast.NotEq)):
             if self.eq is not None and (isinstance(a, (Obj, Tok)) or isinstance(b, (Obj, Tok))):
                 r = self.eq(a, b)
@@ -316,6 +324,8 @@ class Abs:
     def binop(self, op, a, b):
         if isinstance(a, Tok) or isinstance(b, Tok):
             return Tok("(%r%s%r)" % (a, type(op).__name__, b))
+        if isinstance(op, (ast.BitAnd, ast.BitOr)) and (getattr(a, "_abs_native", False) or getattr(b, "_abs_native", False)):
+            return (a & b) if isinstance(op, ast.BitAnd) else (a | b)
         if isinstance(op, ast.MatMult):
             from .symarr import dot as _dot
             return _dot(a, b)
